@@ -163,6 +163,50 @@ def main():
     tr_stamp = find_try(fns['_check_cache_version'], lambda s: has_call(s, 'open', 'version'))
     tr_move = find_try(fns['store'], lambda s: has_call(s, 'shutil.move') or has_call(s, 'os.rename')
                        or has_call(s, 'os.replace'))
+    # --- store: where the temporary file is made, how it is published, what stamp it gets
+    store = fns['store']
+    store_params = [a.arg for a in store.args.args]
+    stamp_param = store_params[3] if len(store_params) >= 4 else None
+    tmp_in_cache_dir = False
+    for d, c in calls(store):
+        if d == 'tempfile.mkstemp':
+            tmp_in_cache_dir = any(k.arg == 'dir' and ast.unparse(k.value) == 'self._directory' for k in c.keywords)
+    tr_mkstemp = find_try(store, lambda st: has_call(st, 'tempfile.mkstemp'))
+    publish_is_rename = (has_call(store, 'os.replace', 'tmp_filename') or has_call(store, 'os.rename', 'tmp_filename')) \
+        and not has_call(store, 'shutil.move')
+    tr_utime = find_try(store, lambda st: has_call(st, 'os.utime', 'tmp_filename'))
+    stamps_source_mtime = False
+    utime_then_publish = False
+    if tr_utime is not None and stamp_param is not None:
+        seen_utime = False
+        for st in tr_utime.body:
+            for d, c in calls(st):
+                if d == 'os.utime' and c.args and ast.unparse(c.args[0]) == 'tmp_filename':
+                    ns = [k for k in c.keywords if k.arg == 'ns']
+                    stamps_source_mtime = bool(ns) and ast.unparse(ns[0].value) == '(%s, %s)' % (stamp_param, stamp_param)
+                    seen_utime = True
+                if d in ('os.replace', 'os.rename') and seen_utime:
+                    utime_then_publish = True
+    # --- the call site: Transformer._parse_include observes the mtime BEFORE it parses and hands it to store
+    caller_ok = False
+    with open(os.path.join(REPO, 'giscanner', 'transformer.py'), encoding='utf-8') as f:
+        ttree = ast.parse(f.read())
+    for n in ast.walk(ttree):
+        if isinstance(n, ast.FunctionDef) and n.name == '_parse_include':
+            seq = []
+            for x in ast.walk(n):
+                if isinstance(x, ast.Assign) and ast.unparse(x.value) == 'os.stat(filename).st_mtime_ns' \
+                        and len(x.targets) == 1 and isinstance(x.targets[0], ast.Name):
+                    seq.append((x.lineno, 'stat', x.targets[0].id))
+                if isinstance(x, ast.Call) and dotted(x.func) == 'parser.parse':
+                    seq.append((x.lineno, 'parse', None))
+                if isinstance(x, ast.Call) and dotted(x.func) == 'self._cachestore.store' and len(x.args) == 3:
+                    seq.append((x.lineno, 'store', ast.unparse(x.args[2])))
+            seq.sort()
+            kinds = [k for _l, k, _v in seq]
+            if kinds == ['stat', 'parse', 'store'] and seq[0][2] == seq[2][2]:
+                caller_ok = True
+
     knobs = [
         ('statEntryCatchesENOENT', handler_swallows(st_entry, 'ENOENT'),
          '`_cache_is_valid`: a missing entry makes `os.stat(store_filename)` fail; is that swallowed?'),
@@ -176,7 +220,16 @@ def main():
         ('unlinkCatchesENOENT', handler_swallows(tr_unl, 'ENOENT'), '`_remove_filename`: entry already gone'),
         ('stampCatchesENOENT', handler_swallows(tr_stamp, 'ENOENT'), '`_check_cache_version`: no stamp file yet'),
         ('moveCatchesENOENT', handler_swallows(tr_move, 'ENOENT'),
-         '`store`: the publish step failing with ENOENT (cross-device copy: entry unlinked before copystat)'),
+         '`store`: the publish step failing with ENOENT (the temporary file was purged by another scanner)'),
+        ('utimeCatchesENOENT', handler_swallows(tr_utime, 'ENOENT'),
+         '`store`: `os.utime(tmp_filename)` failing with ENOENT (the temporary file was purged by another scanner)'),
+        ('mkstempCatchesEACCES', handler_swallows(tr_mkstemp, 'EACCES'), '`store`: cache directory not writable'),
+        ('tmpInCacheDir', tmp_in_cache_dir, '`store`: `tempfile.mkstemp(dir=self._directory)`: the temporary file is in the cache directory'),
+        ('publishIsRename', publish_is_rename, '`store`: published with os.replace / os.rename (never copied)'),
+        ('stampIsSourceMtime', stamps_source_mtime and utime_then_publish,
+         '`store`: before it is published the temporary file gets (os.utime, ns=) the mtime passed as third argument'),
+        ('callerStatsBeforeParse', caller_ok,
+         '`Transformer._parse_include`: `os.stat(filename).st_mtime_ns` is taken before `parser.parse` and handed to `store`'),
         ('loadPathStatCatchesENOENT', handler_swallows(st_entry, 'ENOENT') if path_stat_caught is None else path_stat_caught,
          '`load` (only when it validates by path): a vanished entry does not make the stat raise'),
         ('loadByFd', by_fd, '`load` validates the file it opened (fstat) rather than the path (stat)'),
